@@ -66,7 +66,9 @@ def render_batch(items, extra=None, prelude=""):
         else:
             # every third condition gives default values to its parameters; the call supplies all of them, so that a
             # default of the condition never applies (nor shows in a message)
-            ps = ", ".join([p + ("=IMPOSSIBLE" if idx % 3 == 1 else "") for p in expr.free_params(cond)] + expr.own_default_params(cond))
+            # (the defaulted parameters of the condition itself are keyword-only in every second condition)
+            own = expr.own_default_params(cond)
+            ps = ", ".join([p + ("=IMPOSSIBLE" if idx % 3 == 1 else "") for p in expr.free_params(cond)] + (["*"] if own and idx % 2 else []) + own)
             w.append("    @icontract.{}(lambda {}: {}{})\n    def f{}({}):\n        return 1\n    fs[{}] = f{}\n".format(
                 role, ps, cond, extra.get(idx, ""), idx, allp, idx, idx))
     # LATE is unbound again when the functions are called: a condition may name it only where Python does not read it
@@ -408,6 +410,16 @@ class C:
     @icontract.require(lambda self: self._Other__v < 0 or self.__v < 0)
     def foreign_mangled_first(self):
         pass
+class Aouter:
+    class Binner:
+        def __init__(self):
+            self.__x = 3
+            self._Aouter__x = 300
+        def __repr__(self):
+            return "Binner()"
+        @icontract.require(lambda self: self._Aouter__x < 0 or self.__x < 0)
+        def nested(self):
+            pass
 class AnyCallable:
     """equal to everything (also to the built-in ``all``), gives an empty list when called"""
     def __eq__(self, other):
@@ -436,6 +448,7 @@ PRIVATE_CASES = [
     ("private_global_in_class_body", lambda ns: ns["C"]().uses_private_global(150), {"__limit": "100", "x": "150"}),
     ("walrus_private_target", lambda ns: ns["C"]().walrus_private_target(7), {"__t": "7", "x": "7"}),
     ("foreign_mangled_first", lambda ns: ns["C"]().foreign_mangled_first(), {"self.__v": "5", "self._Other__v": "50"}),
+    ("nested_class", lambda ns: ns["Aouter"].Binner().nested(), {"self.__x": "3", "self._Aouter__x": "300"}),
     ("callable_equal_to_all", lambda ns: ns["callable_equal_to_all"](ns["AnyCallable"](), [1, -1]),
      {"f(x > 0 for x in xs)": "[]", "xs": "[1, -1]", "f": "AnyCallable()"}),
     ("spec_reads_walrus_of_value", lambda ns: ns["spec_reads_walrus_of_value"](3), {"x": "3", 'f"{(w := x):{w}}"': "'  3'"}),
